@@ -226,10 +226,13 @@ def run(ctx) -> None:
     gen_loop = [n for n in walk_no_nested(rr.node) if isinstance(n, ast.For) and unparse(n.iter) == "reset_fields.items()"]
     ctx.check("R3", len(stores) >= 1 and len(gen_loop) == 1, "_reset_rollover_fields applies every (field, value) of the reset items generically",
               "v2version._reset_rollover_fields: reset items are not applied generically", "", loc=rr.loc())
+    fields_name = "fields"
     if it is not rr:
         rf = shapes.single_def(rr, "reset_fields")
-        ok = rf is not None and any(isinstance(c_, ast.Call) and unparse(c_.func) == "_iter_reset_field_items" and [unparse(a_) for a_ in c_.args] == ["fields", rr.params[1], rr.params[2]]
-                                    for c_ in ast.walk(rf))
+        icalls_ = [c_ for c_ in ast.walk(rf) if isinstance(c_, ast.Call) and unparse(c_.func) == "_iter_reset_field_items"] if rf is not None else []
+        ok = len(icalls_) == 1 and len(icalls_[0].args) == 3 and isinstance(icalls_[0].args[0], ast.Name) and [unparse(a_) for a_ in icalls_[0].args[1:]] == [rr.params[1], rr.params[2]]
+        if ok:
+            fields_name = icalls_[0].args[0].id          # the local that holds the pattern's fields (whatever it is called)
         ctx.check("R3", ok, "_reset_rollover_fields: reset items computed from (fields, old_vinfo, cur_vinfo)", "v2version._reset_rollover_fields: reset items computed from other arguments",
                   unparse(rf) if rf is not None else "", loc=rr.loc())
     # the explicit reset chain `if '<f>' in reset_fields: cur_vinfo = cur_vinfo._replace(<f>=<const>)` repeats the table: same values
@@ -243,9 +246,9 @@ def run(ctx) -> None:
                         ctx.check("R3", kw_.value.value == want_v, f"_reset_rollover_fields: explicit reset of {kw_.arg} to {want_v!r} (V2_FIELD_INITIAL_VALUES)",
                                   f"v2version._reset_rollover_fields: `{kw_.arg}` is reset to a value other than its initial value",
                                   f"`{unparse(c_)}` under `{unparse(iff.test)}`; the table says {init_tab[kw_.arg]!r}", loc=rr.loc(c_), witness={"field": kw_.arg, "reset to": kw_.value.value})
-    fd = shapes.single_def(rr, "fields")
+    fd = shapes.single_def(rr, fields_name)
     reset_rollover_eval(ctx, "R3")
-    ctx.check("R3", fd is not None and unparse(fd) == "_parse_pattern_fields(raw_pattern)", "_reset_rollover_fields: field order from _parse_pattern_fields(raw_pattern)",
+    ctx.check("R3", fd is not None and unparse(fd) == f"_parse_pattern_fields({rr.params[0]})", "_reset_rollover_fields: field order from _parse_pattern_fields(raw_pattern)",
               "v2version._reset_rollover_fields: field order not taken from the pattern", "", loc=rr.loc())
     ppf = prog.function("v2version._parse_pattern_fields")
     rets = [n for n in walk_no_nested(ppf.node) if isinstance(n, ast.Return)]
